@@ -233,8 +233,13 @@ func (e *c15Env) c16Check(root int, path []int) (res c15Result) {
 	for _, desc := range descs {
 		if _, was := preV[desc]; !was {
 			kind := postV[desc]
-			if strings.HasPrefix(kind, "live_shard_groups_overlap") && strings.HasPrefix(lastCmd.Name, "ReSharding(") {
-				kind = "live_shard_groups_overlap_by_resharding"
+			if strings.HasPrefix(kind, "live_shard_groups_overlap") {
+				switch {
+				case strings.HasPrefix(lastCmd.Name, "ReSharding("):
+					kind = "live_shard_groups_overlap_by_resharding"
+				case strings.HasPrefix(lastCmd.Name, "DeleteShardGroup(") && strings.HasSuffix(lastCmd.Name, ",cancel)"):
+					kind = "live_shard_groups_overlap_by_cancel_delete"
+				}
 			}
 			add(kind, label+" :: "+desc, desc)
 		}
